@@ -971,33 +971,36 @@ func (c *Ctx) fieldMinLen(eng *ranges.Engine, fa *ssa.FieldAddr, depth int) (int
 // local value that is stored into such a field. The verdict is given only when both operands
 // resolve to such keys; parameters, phis of unrelated things and arithmetic are not decided.
 
+// storageKeyOfAddr: "pkg.Type.field" when addr is (an element of) a field of a named struct.
+func storageKeyOfAddr(addr ssa.Value) string {
+	for i := 0; i < 6; i++ {
+		switch a := addr.(type) {
+		case *ssa.IndexAddr:
+			addr = a.X
+		case *ssa.UnOp:
+			if a.Op != token.MUL {
+				return ""
+			}
+			addr = a.X
+		case *ssa.FieldAddr:
+			if n := namedOfRecv(a.X.Type()); n != nil && n.Obj().Pkg() != nil {
+				return n.Obj().Pkg().Path() + "." + n.Obj().Name() + "." + fieldNameOf(a.X.Type(), a.Field)
+			}
+			return ""
+		default:
+			return ""
+		}
+	}
+	return ""
+}
+
 // srcKeys: the storage keys v is read from (through helper calls that return such reads, depth 2).
 func srcKeys(v ssa.Value, depth int) (keys map[string]bool, ok bool) {
 	keys = map[string]bool{}
 	ok = true
 	var walk func(x ssa.Value, d int)
 	seen := map[ssa.Value]bool{}
-	fieldKeyOf := func(addr ssa.Value) string {
-		for i := 0; i < 6; i++ {
-			switch a := addr.(type) {
-			case *ssa.IndexAddr:
-				addr = a.X
-			case *ssa.UnOp:
-				if a.Op != token.MUL {
-					return ""
-				}
-				addr = a.X
-			case *ssa.FieldAddr:
-				if n := namedOfRecv(a.X.Type()); n != nil {
-					return n.Obj().Pkg().Path() + "." + n.Obj().Name() + "." + fieldNameOf(a.X.Type(), a.Field)
-				}
-				return ""
-			default:
-				return ""
-			}
-		}
-		return ""
-	}
+	fieldKeyOf := storageKeyOfAddr
 	walk = func(x ssa.Value, d int) {
 		if seen[x] || d > 8 {
 			return
@@ -1210,6 +1213,11 @@ func (c *Ctx) unorderedDifference(eng *ranges.Engine, fn *ssa.Function, n ssa.Va
 		if c.orderedSomewhere(kx, ky) {
 			continue
 		}
+		// one quantity computed from the other when it is stored (t.end = t.start + n; offs[i] =
+		// offs[i-1] + size) is ordered by construction: not the witness shape
+		if c.storedFrom(kx, ky) || c.storedFrom(ky, kx) {
+			continue
+		}
 		names := func(m map[string]bool) string {
 			var out []string
 			for k := range m {
@@ -1221,4 +1229,31 @@ func (c *Ctx) unorderedDifference(eng *ranges.Engine, fn *ssa.Function, n ssa.Va
 		return fmt.Sprintf("%s - %s", names(kx), names(ky)), true
 	}
 	return "", false
+}
+
+// storedFrom: some store into a field of ka takes a value computed from a load of a field of kb.
+func (c *Ctx) storedFrom(ka, kb map[string]bool) bool {
+	for _, fn := range c.scopeFuncs() {
+		for _, b := range fn.Blocks {
+			for _, ins := range b.Instrs {
+				st, ok := ins.(*ssa.Store)
+				if !ok || !ka[storageKeyOfAddr(st.Addr)] {
+					continue
+				}
+				for v := range backwardSlice(st.Val, 80) {
+					if u, isLoad := v.(*ssa.UnOp); isLoad && u.Op == token.MUL && kb[storageKeyOfAddr(u.X)] {
+						return true
+					}
+					if cl, isCall := v.(*ssa.Call); isCall {
+						if x, isLen := isLenOf(cl); isLen {
+							if ld, isLd := x.(*ssa.UnOp); isLd && ld.Op == token.MUL && kb["len:"+storageKeyOfAddr(ld.X)] {
+								return true
+							}
+						}
+					}
+				}
+			}
+		}
+	}
+	return false
 }
